@@ -189,7 +189,7 @@ class Analyzer:
 
     def ev_place(self, pl, depth=0):
         fn = self.fn
-        if depth > 14:
+        if depth > 60:
             return None
         l = pl['l']
         if not pl['p']:
@@ -199,6 +199,10 @@ class Analyzer:
             b, i, kind, node = sd
             e = None
             if kind == 'assign':
+                rv = node['rv']
+                if rv['k'] == 'use' and is_place(rv['op']) and any(isinstance(p, dict) and ('idx' in p or 'cidx' in p) for p in rv['op']['pl']['p']):
+                    # an element load: the local itself names the loaded value (one atom per load, however it is reached)
+                    return lin(self.atom_local(l))
                 e = self.ev_rv(node['rv'], depth + 1, (b, i))
             elif kind == 'call':
                 e = self.ev_call(node, depth + 1, b)
@@ -324,7 +328,10 @@ class Analyzer:
     def _write_hits(self, lhs, atoms):
         fn = self.fn
         if not lhs['p']:
-            return ('L%d' % lhs['l']) in atoms or any(a.startswith('P:_%d' % lhs['l']) or a.startswith('len:_%d' % lhs['l']) for a in atoms if re.match(r'^(P|len):_%d(\W|$)' % lhs['l'], a))
+            if ('L%d' % lhs['l']) in atoms:
+                return True
+            rx = re.compile(r'(^|[^\w])_%d([^\d]|$)' % lhs['l'])
+            return any(rx.search(a.split(':', 1)[1]) for a in atoms if a.startswith(('P:', 'len:')))
         cs = fn.canon_str(lhs)
         for a in atoms:
             if a.startswith('P:') and (a[2:] == cs or a[2:].startswith(cs + '.') or cs.startswith(a[2:] + '.')):
@@ -400,6 +407,27 @@ class Analyzer:
                 if wi is None and fn.blocks[wb]['term']['k'] == 'call':
                     pass
                 if tb in after:
+                    return False
+            return True
+        if start[0] == 'join':
+            # from (the top of) block J to the site, along paths that do not re-enter J
+            J = start[1]
+            fwd = fn.reachable(fn.succs()[J], avoid={J}) if fn.succs()[J] else set()
+            for (wb, wi) in W:
+                wn = pos(wi, wb)
+                if wb == J:
+                    if tb == J:
+                        if wn < ti_n:
+                            return False
+                    elif tb in fwd:
+                        return False
+                    continue
+                if wb not in fwd:
+                    continue
+                if wb == tb and wn < ti_n:
+                    return False
+                after = fn.reachable(fn.succs()[wb], avoid={J}) if fn.succs()[wb] else set()
+                if tb in after and tb != J:
                     return False
             return True
         if start[0] == 'entry':
@@ -582,6 +610,67 @@ class Analyzer:
             out.extend(cs)
         return out
 
+    def mono_facts(self, site_block, site_idx):
+        """F9: monotone counters.  An unsigned local v whose definitions are one initialisation `v = e` (e does not
+        mention v) and otherwise only overflow-checked increments `v = v + (non-negative terms)` satisfies e <= v at every
+        point dominated by the initialisation, as long as e's inputs are unchanged since that initialisation (the
+        initialisation may itself sit in an outer loop: the fact is about the current round)."""
+        fn = self.fn
+        out = []
+        saved = self._site
+        cache = self.__dict__.setdefault('_mono_cache', {})
+        for l, ds in fn.defs().items():
+            if l == 0 or 1 <= l <= fn.argc or len(ds) < 2 or fn.local_ty(l) not in UMAX:
+                continue
+            if l not in cache:
+                cache[l] = self._mono_shape(l, ds)
+            shape = cache[l]
+            if not shape:
+                continue
+            (b0, i0), init = shape
+            if not (fn.dominates(b0, site_block) and (b0 != site_block or site_idx is None or i0 < site_idx)):
+                continue
+            self._site = saved
+            if not self.stable_between(self.mutable_atoms(init) | {self.atom_local(l)} - {self.atom_local(l)}, ('def', b0, i0), (site_block, site_idx)):
+                continue
+            out.append(le(init, lin(self.atom_local(l))))
+        self._site = saved
+        return out
+
+    def _mono_shape(self, l, ds):
+        fn = self.fn
+        if any(k not in ('assign',) for (b, i, k, n) in ds):
+            return None
+        # the address of l must never be taken mutably
+        for blk in fn.blocks:
+            for st in blk['stmts']:
+                if st['k'] == 'assign' and st['rv']['k'] in ('ref', 'rawptr') and st['rv'].get('mut') and st['rv']['pl']['l'] == l:
+                    return None
+        me = self.atom_local(l)
+        inits = []
+        for (b, i, k, n) in ds:
+            if fn.blocks[b]['cleanup']:
+                continue
+            self._site = (b, i)
+            e = self.ev_rv(n['rv'], 0, (b, i))
+            if e is None:
+                return None
+            if me not in e:
+                rv = n['rv']
+                if rv['k'] == 'use' and is_place(rv['op']) and not rv['op']['pl']['p'] and not self.multi_def(rv['op']['pl']['l']):
+                    e = lin(self.atom_local(rv['op']['pl']['l']))     # an immutable local names the initial value
+                inits.append(((b, i), e))
+                continue
+            d = add(e, lin(me), -1)
+            if any(v < 0 for v in d.values()):
+                return None
+        if len(inits) != 1:
+            return None
+        (b0, i0), init = inits[0]
+        if not all(fn.dominates(b0, b) for (b, i, k, n) in ds if not fn.blocks[b]['cleanup']):
+            return None
+        return (b0, i0), init
+
     def slice_facts(self, site_block, site_idx):
         """F6: for range-index calls (and get(range) successes) whose return dominates the site."""
         fn = self.fn
@@ -692,6 +781,7 @@ class Analyzer:
         facts += self.edge_facts(site_block, site_idx)
         facts += self.slice_facts(site_block, site_idx)
         facts += self.assert_facts(site_block, site_idx)
+        facts += self.mono_facts(site_block, site_idx)
         for hook in self.S.post.get('__site_hooks__', []):
             facts += hook(self, site_block, site_idx) or []
         pre = self.S.pre.get(self.fn.gpath)
@@ -742,7 +832,7 @@ class Analyzer:
             for c in pf:
                 pat |= self.mutable_atoms(c)
             # facts of the incoming edge must survive until the site
-            pf = [c for c in pf if self.stable_between(self.mutable_atoms(c), ('def', p, None), (site_block, site_idx))]
+            pf = [c for c in pf if self.stable_between(self.mutable_atoms(c), ('join', J), (site_block, site_idx))]
             self._site = (site_block, site_idx)
             f2 = facts + pf
             at2 = set(a for c in f2 + list(goals) for a in c)
